@@ -115,6 +115,11 @@ class ClassInfo:
                 for t in s.targets:
                     if isinstance(t, ast.Name):
                         self.attrs[t.id] = s.value
+                    elif isinstance(t, (ast.Tuple, ast.List)) and isinstance(s.value, (ast.Tuple, ast.List)) \
+                            and len(t.elts) == len(s.value.elts) and not any(isinstance(x, ast.Starred) for x in t.elts + s.value.elts):
+                        for tt, vv in zip(t.elts, s.value.elts):     # a, b = [], []
+                            if isinstance(tt, ast.Name):
+                                self.attrs[tt.id] = vv
             elif isinstance(s, ast.AnnAssign) and isinstance(s.target, ast.Name) and s.value is not None:
                 self.attrs[s.target.id] = s.value
         self.bases = []        # ClassInfo or str (external)
